@@ -30,6 +30,7 @@ func VerifC08InlineLong()     { verifC08Inline(c08Thorough) }
 const (
 	c08ClsComplKeyword = "c08-completion-start-inside-directive-keyword" // cursor inside the word "account " / "commodity "
 	c08ClsComplBlanks  = "c08-completion-start-after-amount-blanks"      // posting: cursor strictly inside the blanks that follow the quantity
+	c08ClsComplTrigger = "c08-completion-start-after-trigger-before-gap" // '=' or '@' typed left of the line's first run of two blanks (secondary date of a header)
 )
 
 // c08CursorValid: every line, every character 0..len that does not split a surrogate pair (case split).
@@ -62,10 +63,32 @@ func (d *c08Doc) lineText(line int) string {
 	return strings.TrimSuffix(strings.Split(d.text, "\n")[line], "\r")
 }
 
-// c08StartAfterCursor: the known class whose input shape the (line, cursor) has, and the start it produces ("" if none).
-func c08StartAfterCursor(d *c08Doc, pos protocol.Position) (string, uint32) {
+// c08StartAfterCursor: the known class whose input shape the (line, cursor, trigger character) has, and the start it
+// produces ("" if none). exact=false: the start is only known to lie at or right of the returned position.
+func c08StartAfterCursor(d *c08Doc, pos protocol.Position, trigger string) (cls string, start uint32, exact bool) {
 	line := int(pos.Line)
 	text := d.lineText(line)
+	if trigger == "=" || trigger == "@" {
+		// the request is in commodity context whatever the line is; the line is read as "account, two blanks, amount":
+		// the first run of two blanks after the indent lies at or right of the cursor, the start lies right of that
+		bl := d.blank[line]
+		cur := d.runeAt(line, pos.Character)
+		for j := d.nextNonBlank(line, 0); j >= 0 && j+1 < len(bl); j++ {
+			if bl[j] && bl[j+1] {
+				if j >= cur {
+					return c08ClsComplTrigger, uint32(d.u16[line][j+2]), false
+				}
+				break
+			}
+		}
+		return "", 0, false
+	}
+	cls, start = c08StartAfterCursorPlain(d, pos, text)
+	return cls, start, true
+}
+
+func c08StartAfterCursorPlain(d *c08Doc, pos protocol.Position, text string) (string, uint32) {
+	line := int(pos.Line)
 	for _, kw := range []string{"account ", "commodity "} {
 		if strings.HasPrefix(text, kw) && pos.Character < uint32(len(kw)) {
 			return c08ClsComplKeyword, uint32(len(kw))
@@ -107,7 +130,7 @@ func c08StartAfterCursor(d *c08Doc, pos protocol.Position) (string, uint32) {
 }
 
 // c08EditRange: a completion edit replaces text that ends at the cursor and starts at or before it, on a character boundary.
-func c08EditRange(d *c08Doc, r protocol.Range, pos protocol.Position, what string, classes bool) {
+func c08EditRange(d *c08Doc, r protocol.Range, pos protocol.Position, what string, classes bool, trigger string) {
 	bad := r.End != pos || r.Start.Line != pos.Line || r.Start.Character > pos.Character || d.insidePair(int(pos.Line), r.Start.Character)
 	if bad && !zzverif.Engine() {
 		fmt.Printf("DUMP %s: range %d:%d-%d:%d cursor %d:%d\n%s\n", what, r.Start.Line, r.Start.Character, r.End.Line, r.End.Character, pos.Line, pos.Character, d.text)
@@ -115,7 +138,8 @@ func c08EditRange(d *c08Doc, r protocol.Range, pos protocol.Position, what strin
 	zzverif.Assert(r.End == pos, what+": edit range does not end at the cursor")
 	zzverif.Assert(r.Start.Line == pos.Line, what+": edit range starts on another line")
 	if classes && r.Start.Character > pos.Character {
-		if cls, start := c08StartAfterCursor(d, pos); cls != "" && r.Start.Character == start && zzverif.Known(cls) {
+		cls, start, exact := c08StartAfterCursor(d, pos, trigger)
+		if cls != "" && (r.Start.Character == start || (!exact && r.Start.Character > start && r.Start.Character <= uint32(d.lens[pos.Line]))) && zzverif.Known(cls) {
 			zzverif.Reach("kf:" + cls)
 			return
 		}
@@ -130,7 +154,7 @@ func verifC08Completion(tier int) {
 		// quick tier: the shapes that change what precedes or follows the cursor on a posting, header or directive line
 		L := c08NDev - 1
 		c = c08ChooseList([]int{0, 3, 5, 6, 7, 12, 13, 14, 15, 17, 18, 19, 20, 21, 22, 23, 25, 26, 27, 29, 30, 32, 37, L + 3, L + 7, L + 9,
-			19030 /* $1, two blanks, comment */}, 2)
+			19030 /* $1, two blanks, comment */, 2004 /* secondary date, two blanks before the description */}, 2)
 	} else {
 		c = c08Choose(tier, 0)
 	}
@@ -144,16 +168,15 @@ func verifC08Completion(tier int) {
 		pos = c08CursorValid(d, 0)
 	}
 	params := &protocol.CompletionParams{TextDocumentPositionParams: w.tdp(pos)}
-	nt := 2
-	if tier == c08Thorough {
-		nt = 4
-	}
-	if t := zzverif.Choice("trigger", nt); t > 0 {
-		tc := []string{"@", ":", "="}[t-1]
-		// LSP: a trigger character is reported when typing it opened the completion, so it is the character before the cursor
-		i := d.runeAt(int(pos.Line), pos.Character)
-		zzverif.Assume(i > 0 && d.lineText(int(pos.Line))[d.boff[pos.Line][i-1]] == tc[0])
-		params.Context = &protocol.CompletionContext{TriggerKind: protocol.CompletionTriggerKindTriggerCharacter, TriggerCharacter: tc}
+	// LSP: a trigger character is reported when typing it opened the completion, so it is the character before the
+	// cursor: after each of the server's trigger characters both kinds of request are made.
+	trigger := ""
+	if i := d.runeAt(int(pos.Line), pos.Character); i > 0 {
+		prev := d.lineText(int(pos.Line))[d.boff[pos.Line][i-1]]
+		if (prev == '@' || prev == ':' || prev == '=') && zzverif.Choice("trigger", 2) == 1 {
+			trigger = string([]byte{prev})
+			params.Context = &protocol.CompletionContext{TriggerKind: protocol.CompletionTriggerKindTriggerCharacter, TriggerCharacter: string([]byte{prev})}
+		}
 	}
 	w.open()
 	res, err := w.s.Completion(context.Background(), params)
@@ -165,7 +188,7 @@ func verifC08Completion(tier int) {
 			continue
 		}
 		if n == 0 {
-			c08EditRange(d, te.Range, pos, "completion", true)
+			c08EditRange(d, te.Range, pos, "completion", true, trigger)
 		} else {
 			zzverif.Assert(te.Range == res.Items[0].TextEdit.Range, "completion: items carry different edit ranges")
 		}
@@ -181,7 +204,7 @@ func verifC08Completion(tier int) {
 // inline completion: a document with a transaction, then a header with the same payee and a line of 0..3 blanks below it.
 // quick: one shape deviation of transaction 1 (eight that change the header, the payee or the line ends), at most one
 // wide character in the payee or the first account; cursor on the new header, the line below it and the last line.
-// thorough: a second deviation among those of the header line and the document-wide ones, one more site (the quoted
+// thorough: a second deviation among eight of the header line and the document-wide ones, one more site (the quoted
 // commodity), the blank separator line as well.
 func verifC08Inline(tier int) {
 	o := &c08Opt{hws: 1, gap: 2, site: -1, site2: -1, concrete: 1}
@@ -190,7 +213,7 @@ func verifC08Inline(tier int) {
 	c08Dev(o, d1)
 	ns := 2
 	if tier == c08Thorough {
-		hdr := []int{0, 1, 2, 3, 4, 5, 6, 7, 8, 9, 10, 11, 39, 37, 38}
+		hdr := []int{0, 2, 3, 4, 5, 6, 9, 37, 38}
 		d2 := hdr[zzverif.Choice("dev2", len(hdr))]
 		zzverif.Assume(d2 == 0 || (d2 != d1 && c08DevField(d1) != c08DevField(d2)))
 		c08Dev(o, d2)
@@ -198,7 +221,7 @@ func verifC08Inline(tier int) {
 	}
 	if k := zzverif.Choice("site", ns); k > 0 {
 		o.site = []int{c08SDesc, c08SSeg1, c08SQuoted}[k-1]
-		o.class = 1 + zzverif.Choice("class", 3)
+		o.class = []int{3, 2, 1}[zzverif.Choice("class", 4-ns/2)] // quick: three classes; thorough: astral and the 3-byte currency sign
 	}
 	c.items = []int{c08IT1, c08IBlank, c08IHeader1, c08IBlanks0 + zzverif.Choice("blanks", 4)}
 	w := c08Open(c)
@@ -214,7 +237,7 @@ func verifC08Inline(tier int) {
 	for _, it := range res.Items {
 		zzverif.Assert(it.Range != nil, "inlineCompletion: item without range")
 		if it.Range != nil {
-			c08EditRange(d, *it.Range, pos, "inlineCompletion", false)
+			c08EditRange(d, *it.Range, pos, "inlineCompletion", false, "")
 			zzverif.Reach("C08.inline.range")
 		}
 	}
